@@ -173,13 +173,36 @@ def print_assumptions(pid, props_mod, names, workdir):
     return out, o
 
 
-def hygiene_scan():
-    """No Admitted/admit/Axiom/Parameter/... anywhere in the development."""
+def coq_cone(props_file):
+    """The .v files a property's theorems depend on (transitive `From YQ Require Import` closure)."""
+    seen, todo = set(), [props_file]
+    while todo:
+        f = todo.pop()
+        if f in seen or not os.path.exists(os.path.join(COQ, f)):
+            continue
+        seen.add(f)
+        src = re.sub(r"\(\*.*?\*\)", "", open(os.path.join(COQ, f)).read(), flags=re.S)
+        for m in re.finditer(r"From\s+YQ\s+Require\s+(?:Import|Export)\s+(.*?)\.(?=\s|$)", src, re.S):
+            for mod in m.group(1).split():
+                todo.append(mod.replace(".", "/") + ".v")
+        for m in re.finditer(r"Require\s+(?:Import|Export)\s+(.*?)\.(?=\s|$)", src, re.S):
+            for mod in m.group(1).split():
+                if mod.startswith("YQ."):
+                    todo.append(mod[3:].replace(".", "/") + ".v")
+    return sorted(seen)
+
+
+def hygiene_scan(props_file=None):
+    """No Admitted/admit/Axiom/Parameter/... in the development (with props_file: in that property's
+    dependency cone, so an unfinished file that no theorem uses cannot disturb other properties)."""
     bad = []
     pat = re.compile(r"\b(Admitted|admit|Axiom|Axioms|Parameter|Parameters|Conjecture|Unset Guard|bypass_check|Admit Obligations|type-in-type|impredicative-set)\b")
+    only = set(coq_cone(props_file)) if props_file else None
     for root, _, fs in os.walk(COQ):
         for f in fs:
             if not f.endswith(".v"):
+                continue
+            if only is not None and os.path.relpath(os.path.join(root, f), COQ) not in only:
                 continue
             src = open(os.path.join(root, f)).read()
             src_nc = re.sub(r"\(\*.*?\*\)", "", src, flags=re.S)
@@ -470,7 +493,8 @@ class Check:
                 return False, "translator failed: " + "\n".join(mine)[-1500:]
         ok, o, dt = coq_make([props_file + "o"])
         self.extra["coq_build_s"] = round(dt, 1)
-        bad = hygiene_scan()
+        bad = hygiene_scan(props_file)
+        self.extra["cone"] = coq_cone(props_file)
         if bad:
             self.extra["hygiene"] = bad
             return False, "hygiene scan: " + "; ".join(bad)
